@@ -165,8 +165,17 @@ fn reset(w: &mut World, space: usize, top: usize) {
     if top == 0 {
         w.hist.grants.retain(|_, (_, sp)| *sp != space);
     } else {
-        let t = (top + PAGE - 1) & !(PAGE - 1);
-        trim_range(w, Some(space), t, usize::MAX);
+        // In a discontiguous space "above the top" is in region-list order, not address order:
+        // the shadow cannot tell which grants survive, so it forgets the space's grants (new
+        // grants are tracked again; the exact-accounting check skips such a space).
+        let contiguous = MMTK_INSTANCE.get().is_none()
+            || introspect::spaces(mmtk()).iter().find(|s| s.index == space).map_or(true, |s| s.contiguous);
+        if contiguous {
+            let t = (top + PAGE - 1) & !(PAGE - 1);
+            trim_range(w, Some(space), t, usize::MAX);
+        } else {
+            w.hist.grants.retain(|_, (_, sp)| *sp != space);
+        }
     }
 }
 
